@@ -46,7 +46,18 @@ def frames_for(e, acc):
     kwroute = K.route_kwargs(e)
     for fillname, fill in (("00", None), ("inc", lambda i: (i + 1) & 0xFF)):
         for c in (0, 1, 2, 3):
-            for nm in ((0, 1, 2, 3, 5, 16, 63, 64, 65) if _has_none(e.pdict) else (0,)):
+            nms = (0,)
+            if _has_none(e.pdict):
+                nms = [0, 1, 2, 3, 5, 16, 63, 64, 65]
+                # member counts that bring the payload to 255/256/257/511/512/513 bytes, where reachable
+                fixed = C.build_payload(e, lambda x: c, 0, None, maxlen=4096)
+                one = C.build_payload(e, lambda x: c, 1, None, maxlen=4096)
+                if fixed is not None and one is not None and len(one) > len(fixed):
+                    ms = len(one) - len(fixed)
+                    for target in (255, 256, 257, 511, 512, 513, 768):
+                        if (target - len(fixed)) % ms == 0 and target >= len(fixed):
+                            nms.append((target - len(fixed)) // ms)
+            for nm in nms:
                 pl = C.build_payload(e, lambda x: c, nm, fill, maxlen=4096)
                 if pl is None:
                     continue
@@ -114,7 +125,7 @@ def run_tier(tier, t0):
     engine.finish(
         PROP, tier, acc, t0, replay_case,
         rule=(
-            "every routed SET and POLL definition x conforming payloads (counted groups 0..3 members, variable-by-size groups {0,1,2,3,5,16,63,64,65} members, fills 00 / incrementing) generated by the "
+            "every routed SET and POLL definition x conforming payloads (counted groups 0..3 members, variable-by-size groups {0,1,2,3,5,16,63,64,65} members and the member counts that give payloads of 255..257, 511..513, 768 bytes, fills 00 / incrementing) generated by the "
             "payload route, the keyword route and (for empty payloads) the no-keyword route; each frame parsed with its true mode and with SETPOLL. Same enumeration in both tiers. "
             "distinct_nontrivial = (mode, route, verdict) classes"
         ),
